@@ -88,6 +88,14 @@ CHECKS["C16"] = dict(
     engine="gev",
 )
 
+CHECKS["C15"] = dict(
+    technique="diagnostic monitor with single-defect injection + position-sync invariant at the parser tap",
+    text="(i) generated templates in documented syntax must produce nothing at Warn or above; (ii) each of 11 structural defects, injected at a random applicable site of a generated (multi-line, CJK/astral-bearing) template, must yield a diagnostic of the expected kind at or above the documented level; (iii) every diagnostic of every input, including randomly damaged templates, must have start <= end on existing lines and UTF-16 columns, and the event tap recomputes (line, column) from the byte cursor at every position() and after every try_parse rollback (86 M position events per quick run).",
+    note="Trusted: the defect table of Appendix A; the injection functions. Inputs on which the compiler is not total are C01's business and only counted here.",
+    ref="2/C15",
+    engine="gev",
+)
+
 NOT_YET = {}
 
 
